@@ -96,6 +96,26 @@ func corpus() []updsim.History {
 		h.Ops = append(h.Ops, updsim.FinalOps(cfg, []int{0, 0, 20})...)
 		hs = append(hs, h)
 	}
+	// a dormant channel far behind: the waking update is more than a whole difference limit ahead
+	// of the stored pts; sliced channel differences must bring everything in
+	{
+		cfg := updsim.Config{Base: []int{0, 0, 10}, Dormant: []bool{false, false, true}, CSliceLim: 2}
+		h := updsim.History{Cfg: cfg, Log: []updsim.Entry{E(1, updsim.KCMsg, 2, 11, 1), E(2, updsim.KCOther, 2, 161, 150), E(3, updsim.KCMsg, 2, 162, 1),
+			E(4, updsim.KCMsg, 2, 163, 1), E(5, updsim.KCMsg, 2, 164, 1)}}
+		h.Ops = []updsim.Op{{K: updsim.OpStartup, Vis: []int{0, 0, 10}}, {K: updsim.OpPush, Vis: []int{0, 0, 164}, Items: []int{5}, CID: 1}}
+		h.Ops = append(h.Ops, updsim.FinalOps(cfg, []int{0, 0, 164})...)
+		hs = append(hs, h)
+	}
+	// a channel difference that also carries the latest update of ANOTHER tracked channel (which has
+	// a gap of its own): it must go through that channel's sequence
+	{
+		cfg := updsim.Config{Base: []int{0, 0, 0, 10}, Foreign: true}
+		h := updsim.History{Cfg: cfg, Log: []updsim.Entry{E(1, updsim.KCMsg, 2, 1, 1), E(2, updsim.KCMsg, 3, 11, 1), E(3, updsim.KCMsg, 3, 12, 1)}}
+		v := []int{0, 0, 1, 12}
+		h.Ops = []updsim.Op{{K: updsim.OpStartup, Vis: []int{0, 0, 0, 10}}, {K: updsim.OpChanTooLong, Vis: v, Seq: 2}}
+		h.Ops = append(h.Ops, updsim.FinalOps(cfg, v)...)
+		hs = append(hs, h)
+	}
 	// the result of our own action (HandleAffected) overtakes the update before it, common and channel
 	for _, seq := range []int{0, 2} {
 		cfg := updsim.Config{Base: []int{0, 0, 0}}
